@@ -98,14 +98,16 @@ InjectAck(i, e) == /\ Quiet /\ injs < MaxInj /\ i \in Live /\ sess[i].srv = "old
                    /\ UNCHANGED <<sess,nextId,s2c,lstate,lepoch,ack,hrCalls,oldUp,newUp,mstate,mepoch,cur,reserve,closed,wpc,wsess,tq,dies,kf,idAtClose>>
 
 \* ---------------- old listener
-LHotRestart(e) == /\ Quiet /\ oldUp /\ hrCalls < MaxHR /\ lstate # "hot" /\ e > lepoch
-                  /\ hrCalls' = hrCalls + 1
-                  /\ lstate' = "hot" /\ lepoch' = e /\ tq' = Append(tq, "L")
-                  /\ LET T == {i \in Live : sess[i].srv = "old" /\ sess[i].sstate = "def"} IN
-                       /\ sess' = [i \in SessIds |-> IF i \in T THEN [sess[i] EXCEPT !.sstate = "hot"] ELSE sess[i]]
-                       /\ s2c' = [i \in SessIds |-> IF i \in T THEN Append(s2c[i], e) ELSE s2c[i]]
-                       /\ ack' = ack + Cardinality(T)
-                  /\ UNCHANGED <<nextId,c2s,oldUp,newUp,mstate,mepoch,cur,reserve,closed,wpc,wsess,dies,injs,kf,idAtClose>>
+\* T: the sessions in Listener.sessions that are in the default state (every live one; trace validation passes the logged set)
+LHotRestartT(e, T) == /\ Quiet /\ oldUp /\ hrCalls < MaxHR /\ lstate # "hot" /\ e > lepoch
+                      /\ hrCalls' = hrCalls + 1
+                      /\ lstate' = "hot" /\ lepoch' = e /\ tq' = Append(tq, "L")
+                      /\ sess' = [i \in SessIds |-> IF i \in T THEN [sess[i] EXCEPT !.sstate = "hot"] ELSE sess[i]]
+                      /\ s2c' = [i \in SessIds |-> IF i \in T THEN Append(s2c[i], e) ELSE s2c[i]]
+                      /\ ack' = ack + Cardinality(T)
+                      /\ UNCHANGED <<nextId,c2s,oldUp,newUp,mstate,mepoch,cur,reserve,closed,wpc,wsess,dies,injs,kf,idAtClose>>
+LHotRestart(e) == /\ e \in Epochs
+                  /\ LHotRestartT(e, {i \in Live : sess[i].srv = "old" /\ sess[i].sstate = "def"})
 \* handleHotRestartAck: checks the epoch only
 LAck(i) == /\ Quiet /\ oldUp /\ i \in Live /\ sess[i].srv = "old" /\ c2s[i] # <<>>
            /\ c2s' = [c2s EXCEPT ![i] = Tail(@)]
